@@ -4,6 +4,7 @@ import (
 	"bytes"
 	"encoding/binary"
 	"fmt"
+	"math"
 	"runtime"
 	"strings"
 	"testing"
@@ -441,6 +442,38 @@ func TestC10_HostileTable(t *testing.T) {
 	run("cbor", c10HostileCbor)
 	run("dag-json", c10HostileJson)
 	run("json", c10HostileJson)
+}
+
+// TestC10_SelectorBoundaryTable enumerates every pair of boundary integers in every integer position of the
+// selector language (subset bounds, index, range bounds, recursion depth) over a root holding each leaf and
+// container shape the clause can meet; same oracle as [selectors].
+func TestC10_SelectorBoundaryTable(t *testing.T) {
+	if evid.Shard() != 0 {
+		t.Skip()
+	}
+	rec := evid.New("C10", "selectorboundaries", "every pair of boundary integers {0, ±1, 2, 5, 6, 7, 2^31-1, 2^31, 2^32, 2^40, 2^62+5, ±2^63 (and +1/-1 off them)} as subset bounds, range bounds, index and recursion depth, under explore-all over a root holding empty / short strings and bytes, a 5-element list and a numeric-keyed map; compile and all three walkers must return or error without panic; enumerated completely")
+	rec.Exhaustive()
+	defer rec.Flush()
+	bounds := []int64{0, -1, 1, 2, 5, 6, 7, -6, -7, 1<<31 - 1, 1 << 31, 1 << 32, 1 << 40, 1<<62 + 5, math.MaxInt64, math.MaxInt64 - 1, math.MinInt64, math.MinInt64 + 1}
+	root := val.MkList(val.MkString("abcdef"), val.MkBytes([]byte("0123456789")), val.MkString(""), val.MkBytes(nil),
+		val.MkList(val.MkInt(1), val.MkInt(2), val.MkString("xyz"), val.MkInt(4), val.MkList(val.MkString("deep"))),
+		val.MkMap(val.Ent{K: "0", V: val.MkString("zero")}, val.Ent{K: "1", V: val.MkList(val.MkString("one"))}, val.Ent{K: "5", V: val.MkInt(5)}))
+	g := graph.Graph{Root: root}
+	run := func(s refsel.Sel) {
+		c := C10SelCase{Spec: s.Spec(), G: g}
+		if err := c10SelCheck(c, rec); err != nil {
+			evid.SaveFailure("C10", "selectors", c, err)
+			t.Fatalf("C10.selectorboundaries %s: %v", s, err)
+		}
+	}
+	for _, a := range bounds {
+		run(refsel.All(refsel.Index(a, refsel.Match())))
+		run(refsel.Rec(a, refsel.All(refsel.Union(refsel.Match(), refsel.Edge()))))
+		for _, b := range bounds {
+			run(refsel.All(refsel.MatchSubset(a, b)))
+			run(refsel.All(refsel.Range(a, b, refsel.MatchSubset(b, a))))
+		}
+	}
 }
 
 // ---------------------------------------------------------------------------------------
